@@ -50,11 +50,12 @@ TECH = {
 
 
 def main():
+    READY = set(open(os.path.join(HERE, "tools", "ready.txt")).read().split())
     checks = []
     na = []
     for i in range(1, 21):
         pid = f"C{i:02d}"
-        if os.path.exists(os.path.join(HERE, "props", pid.lower() + ".py")):
+        if os.path.exists(os.path.join(HERE, "props", pid.lower() + ".py")) and pid in READY:
             tech, bounds = TECH[pid]
             checks.append({
                 "property_id": pid,
